@@ -4,13 +4,15 @@ F1 (Engine A): every KnownWord fold operation vs. the limb-wise Yellow-Paper mod
                operands fully symbolic (2 x 256 bits).
 F2 (Engine B): structure of `constant_folder` per arm (added by mirsmt).
 """
-from .. import kani
+from .. import kani, mirrun
+from . import folder
 
 F1 = ["known_add", "known_sub", "known_and", "known_or", "known_xor", "known_not",
       "known_lt", "known_gt", "known_slt", "known_sgt", "known_eq", "known_is_zero",
       "known_shl", "known_shr", "known_sar",
       "known_mul", "known_div", "known_rem", "known_sdiv", "known_smod",
-      "known_exp_base2", "known_exp_base01", "known_exp_small_exponent"]
+      "known_exp_small_exponent"]
+F1_THOROUGH = ["known_exp_base0", "known_exp_base1", "known_exp_base2"]
 TWINS = ["known_twin"]
 
 
@@ -26,4 +28,6 @@ def run(out, tier):
                     "reference model /verif/kani/src/model.rs (u128 limb arithmetic)"]
     out.assumptions += ["dev profile semantics (debug assertions on) under Kani; release behaviour of each "
                         "counterexample is obtained by native replay"]
+    eng = mirrun.load_engine(out)
+    folder.run_f2(out, eng)
     kani.run_family(out, F1 + TWINS, expect_fail=TWINS, tier=tier)
